@@ -64,7 +64,10 @@ def run(ctx):
         cases.append(c)
         wjobs.append({"flavour": fl if fl != "none" else "b2r", "impl": impl, "eta": rwlib.nd(eta), "cue_vectors": cv,
                       "outcome_vectors": ov, "pol": pol, "parts": [es], "n_jobs": c["n_jobs"],
-                      "n_outcomes_per_job": c["n_outcomes_per_job"], "per": per, "no_tables": fl == "none"})
+                      "n_outcomes_per_job": c["n_outcomes_per_job"], "per": per, "no_tables": fl == "none",
+                      # a quarter of the calls have a history: the same file learned from just before, in the same process,
+                      # with the vectors listed in another row order
+                      "earlier_permuted": fl != "none" and len(cases) % 4 == 1})
         rjobs.append({"kind": "ndl", "events": es, "pol": pol, "alpha": [1, 1], "beta1": rwlib.nd(eta),
                       "beta2": rwlib.nd(eta), "lam": [1, 1], "method": rng.choice(["openmp", "threading"]),
                       "n_jobs": 2, "n_outcomes_per_job": 3})
